@@ -24,6 +24,13 @@ func properties() []*propDef {
 			Assumptions: []string{"VTA call graph over-approximates dynamic dispatch", "generated grammar package initialises its tables under sync.Once (trusted)"},
 		},
 		{
+			ID: "C05", Title: "Equality and ordering operators form one consistent partial order",
+			Rules: []ruleFn{ruleORD1, ruleORD2, ruleORD3, ruleORD5, ruleORD7},
+			Explanation: "Structural clauses of the comparison machinery: ORD1 every quantifier loop (collection equality, all/allTrue/anyTrue/…, contains) returns its all-items verdict outside the loop; ORD2 `=`/`!=` share one comparison whose no-value outcome is empty and differ by exactly one negation (SCCP with the comparison result pinned, 8 cells); ORD3 the four inequalities are oriented L<R / R<L / not(R<L) / not(L<R) over normalised operands and precision/unit mismatches give empty (SCCP with both Less results pinned, 28 cells); ORD5 IsPrimitive and From handle the same types and cover every R4 primitive datatype of the schema; ORD7 the Equal/TryEqual method shapes that the reflective dispatch of system/cmp.go relies on.",
+			NotDecided: []string{"agreement of the per-type Less/TryEqual methods with a reference comparison model (values of eight types)", "transitivity / trichotomy on values", "unit handling inside Quantity comparison"},
+			Assumptions: []string{"operator semantics table frozen in rules_c05.go"},
+		},
+		{
 			ID: "C06", Title: "Boolean operators follow FHIRPath three-valued logic for every operand form",
 			Rules: []ruleFn{ruleBOOL1, ruleBOOL2, ruleBOOL3},
 			Explanation: "Exhaustive abstract evaluation (conditional constant propagation with exact domain) of the branch-only Boolean machinery: BOOL1 ToSingletonBoolean/ToBool under every operand form and length class; BOOL3 the four table functions on {true,false,empty}^2, the whole BooleanExpression node for 4 operators x 5x5 operand forms (true, false, empty, non-Boolean singleton, multi-item) with the operand evaluations pinned, operand-error propagation, unknown operator, and not(); BOOL2 where/all/iif/EvaluateAsBool under every criterion form. Results are compared with the FHIRPath N1 truth tables frozen in the checker. Commutativity, De Morgan and `a implies b = a.not() or b` follow from the tables.",
